@@ -48,6 +48,14 @@ def viatrybody(n):     # loop(n) = ㅅㄷ(n == 0 ? 0 : loop(n-1), handler): the 
     return (f"{enc(n)} ((ㄱ ((ㄱㅇㄱ ㄴㄱ ㄷㅎㄷ) ㄱㅇ ㅎㄴ) {COND} ㅎㄷ) (ㄱㅇㄱ ㅎ) ㅅㄷㅎㄷ ㅎ) ㅎㄴ", "0")
 
 
+def boolflag(n):       # search(n, found) = n == 0 ? found : search(n-1, found ∨ (n == −1)), the flag forced in every round and always False
+    return (f"{enc(n)} (ㄱㅈㅎㄱ) ((ㄴㅇㄱ) ((ㄱㅇㄱ ㄴㄱ ㄷㅎㄷ) (ㄴㅇㄱ (ㄱㅇㄱ ㄴㄱ ㄴㅎㄷ) ㄷㅎㄷ) ㄱㅇ ㅎㄷ) ((ㄴㅇㄱ ㄴㅇㄱ ㄴㅎㄷ) {COND} ㄱㅎㄷ) ㅎㄷ ㅎ) ㅎㄷ", "False")
+
+
+def nilstate(n):       # loop(n, s) with s = Nil / empty list / 0 / empty string carried along and forced each round (falsy host values)
+    return (f"{enc(n)} (ㅁㄹㅎㄱ) ((ㄴㅇㄱ) ((ㄱㅇㄱ ㄴㄱ ㄷㅎㄷ) (ㄴㅇㄱ (ㅁㄹㅎㄱ) ㄷㅎㄷ) ㄱㅇ ㅎㄷ) ((ㄴㅇㄱ ㄴㅇㄱ ㄴㅎㄷ) {COND} ㄱㅎㄷ) ㅎㄷ ㅎ) ㅎㄷ", "[]")
+
+
 def nontail(n):        # s(n) = n == 0 ? 0 : n + s(n-1)   (frames grow with n)
     return (f"{enc(n)} ㄱ (ㄱㅇㄱ ((ㄱㅇㄱ ㄴㄱ ㄷㅎㄷ) ㄱㅇ ㅎㄴ) ㄷㅎㄷ) {COND} ㅎㄷ ㅎ ㅎㄴ", str(n * (n + 1) // 2))
 
@@ -61,7 +69,8 @@ def nestfmt(n):        # printing a list nested n deep (KNOWN FINDING for large 
 
 
 TAIL = {'countdown': countdown, 'accum': accum, 'mutual': mutual, 'viabool': viabool, 'rbind': rbind,
-        'viahelper': viahelper, 'viaid': viaid, 'viathunk': viathunk, 'viatry': viatry}
+        'viahelper': viahelper, 'viaid': viaid, 'viathunk': viathunk, 'viatry': viatry,
+        'boolflag': boolflag, 'nilstate': nilstate}
 
 
 @monitor('c05_value')
@@ -84,7 +93,8 @@ def cases(rng, tier):
                 prog, want = mk(n1)
                 big = n1 >= 10 ** 5
                 yield Case(program=prog, tag=name, monitor='c05_value', data=(name, want, False), format_io=True,
-                           timeout=600 if big else 60, fuel=400 * n1 + 10 ** 6, skip_model=(n1 >= 10 ** 6), nontrivial=n1 >= 100)
+                           timeout=600 if big else 120, fuel=400 * n1 + 10 ** 6, skip_model=(n1 >= 10 ** 6), nontrivial=n1 >= 100,
+                           timeout_fails=True)       # a loop that does not finish in 60× its usual time has not run to completion
     # the loop's result consumed more than once afterwards (read again from its cell), and loops inside loops
     CONSUME = {
         'twice-eq': (lambda x: f"({x}) (ㄱㅇㄱ ㄱㅇㄱ ㄴㅎㄷ ㅎ) ㅎㄴ", lambda w: "True"),
